@@ -10,8 +10,37 @@ from typing import Any, TypeVar
 
 from hypergraph.nodes._rename import RenameEntry, RenameError, get_next_batch_id
 
+class _EmitSentinel:
+    """Type of the sentinel auto-produced for emit outputs when a node runs.
+
+    The sentinel is recognised by identity (``value is _EMIT_SENTINEL``), so it has
+    to survive pickling and copying as the very same object - otherwise a cached
+    result restored from a serialising backend (DiskCache) carries a look-alike
+    that is no longer filtered out of RunResult.values.
+    """
+
+    __slots__ = ()
+
+    def __reduce__(self):
+        return (_get_emit_sentinel, ())
+
+    def __copy__(self):
+        return self
+
+    def __deepcopy__(self, memo):
+        return self
+
+    def __repr__(self) -> str:
+        return "<emit>"
+
+
+def _get_emit_sentinel() -> "_EmitSentinel":
+    """Unpickling hook: always the module-level singleton."""
+    return _EMIT_SENTINEL
+
+
 # Sentinel value auto-produced for emit outputs when a node runs.
-_EMIT_SENTINEL = object()
+_EMIT_SENTINEL = _EmitSentinel()
 
 # TypeVar for self-referential return types (Python 3.10 compatible)
 _T = TypeVar("_T", bound="HyperNode")
